@@ -318,4 +318,40 @@ theorem gen_sweep3d (big dz dx dy : α) (nz nx ny : Nat) (slow : Grid3 α) (grad
   simp only [o1, o2, o3, o4, o5, o6, o7, o8]
   rfl
 
+/-! ## the sweep iteration `for _ in range(nsweep): sweep3d(...)` of `fteik3d` -/
+
+theorem sweep3d_box (p : Par3 α) (slow : Grid3 α) (grad : Bool) (s : St3 α)
+    (h : s.tt.IsBox p.nz p.nx p.ny) : (sweep3d p slow grad s).tt.IsBox p.nz p.nx p.ny := by
+  unfold sweep3d
+  generalize schedule3 p.nz p.nx p.ny = l
+  induction l generalizing s with
+  | nil => exact h
+  | cons x xs ih => exact ih _ (nodeUpdate3_box p slow grad s _ _ _ _ h)
+
+/-- **`nsweep` of the translated `fteik3d` is the iteration count of the model's `sweep3d`** -/
+theorem gen_fteik3d_sweeps (big dz dx dy : α) (nz nx ny : Nat) (slow : Grid3 α) (grad : Bool) (n : Nat) (s : St3 α)
+    (hb : s.tt.IsBox nz nx ny) :
+    Gen.F3.fteik3d_loop2 big dx dy dz grad (n : Int) nx ny nz slow s.tt s.sgn
+      = (iter (sweep3d (mkPar3 big dz dx dy nz nx ny) slow grad) n s).toP := by
+  have hl : ∀ (l : List Nat) (s : St3 α), s.tt.IsBox nz nx ny →
+      l.foldl (fun (acc : Grid3 α × Grid3 (Int × Int × Int)) (_ : Nat) =>
+        Gen.F3.sweep3d big acc.1 acc.2 slow dz dx dy nz nx ny grad) s.toP
+        = (iter (sweep3d (mkPar3 big dz dx dy nz nx ny) slow grad) l.length s).toP := by
+    intro l
+    induction l with
+    | nil => intro s _; rfl
+    | cons a l ih =>
+      intro s hs
+      simp only [List.foldl_cons, List.length_cons]
+      have e : Gen.F3.sweep3d big s.toP.1 s.toP.2 slow dz dx dy nz nx ny grad
+          = (sweep3d (mkPar3 big dz dx dy nz nx ny) slow grad s).toP := gen_sweep3d big dz dx dy nz nx ny slow grad s hs
+      rw [e]
+      exact ih _ (sweep3d_box (mkPar3 big dz dx dy nz nx ny) slow grad s hs)
+  have := hl (List.range n) s hb
+  rw [List.length_range] at this
+  rw [← this]
+  unfold Gen.F3.fteik3d_loop2
+  rw [pyRange_zero, List.foldl_map]
+  rfl
+
 end Fteik
